@@ -1572,6 +1572,634 @@ def gen_misc(rng, big=False):
 
 
 # ----------------------------------------------------------------------------------------------
+# family: compositions -- the context-recording transforms used THROUGH the package's composition features
+#   hosts:     KDMultiViewWrapper (several configs, n_views >= 1, ctx["view<v>"]), XTransformWrapper (flat ctx), KDComposeTransform called directly
+#   pipelines: crop / simple crop / resized crop / two-crop / patchify+shuffle, chained (resized crop -> crop, crop -> patchify -> shuffle, flip -> crop),
+#              last step optionally under KDRandomApply or KDTransformChoice
+#   below:     the dataset is optionally wrapped first (SubsetWrapper with permuted indices, XTransformWrapper with a deterministic transform)
+#   histories: every record (views, ctx) is judged only AFTER all fetches of the case ran (later samples, the peer instance, the pickled copy must not
+#              change what was recorded for an earlier sample); the used host is optionally replaced by its pickled / deep copy; a second host instance
+#              (own configuration, or built from the very same configuration objects) is alive and used in between
+#   inputs:    uint8 / float32 / float64 tensors, 1-channel tensors, PIL
+# judged by the property statement only: for every view, the parameters recorded FOR THAT VIEW, applied by hand (torchvision.functional / slicing) to
+# the input of that sample, reproduce the view exactly, lie inside the (padded) input and give the requested size; the recorded permutation inverts
+# the shuffle of that view (package's UnpatchifyImage with that view's ctx gives the patchified image back).  No model is involved (req = None).
+# ----------------------------------------------------------------------------------------------
+COMP_HOSTS = {"multiview": "KDMultiViewWrapper", "xwrap": "XTransformWrapper", "compose": "KDComposeTransform"}
+
+
+def comp_image(kind, h, w):
+    if kind == "pil":
+        return coord_pil(h, w)
+    t = coord_tensor(h, w)
+    if kind == "f32":
+        return t.to(torch.float32) / 255
+    if kind == "f64":
+        return t.to(torch.float64) / 255
+    if kind == "gray":
+        r = torch.arange(h).view(h, 1).expand(h, w)
+        c = torch.arange(w).view(1, w).expand(h, w)
+        return ((r * 41 + c + 1) % 256).to(torch.uint8).view(1, h, w).contiguous()
+    return t
+
+
+def comp_copy(img):
+    return img.clone() if torch.is_tensor(img) else img.copy()
+
+
+def same_any(a, b):
+    """exact equality of two images / patch tensors (PIL compared through pil_to_tensor); dtype and shape must agree for tensors"""
+    if torch.is_tensor(a) and torch.is_tensor(b):
+        return a.shape == b.shape and a.dtype == b.dtype and bool((a == b).all())
+    if torch.is_tensor(a) != torch.is_tensor(b):
+        return False
+    try:
+        return same_img(a, b)
+    except Exception:  # noqa
+        return False
+
+
+def build_step(step):
+    import kappadata.transforms as T
+    from kappadata.transforms.kd_two_random_crop import KDTwoRandomCrop
+    k = step["t"]
+    if k == "crop":
+        t = build_crop(dict(step, cls="KDRandomCrop"))
+    elif k == "two":
+        t = build_crop(dict(step, cls="KDTwoRandomCrop"))
+    elif k == "simple":
+        t = build_crop(dict(step, cls="KDSimpleRandomCrop"))
+    elif k == "rrc":
+        t = T.KDRandomResizedCrop(size=tuple(step["size"]), scale=tuple(step["scale"]), ratio=tuple(step["ratio"]), interpolation=step.get("interp", "bilinear"))
+    elif k == "patchify":
+        t = T.PatchifyImage(patch_size=(step["ph"], step["pw"]))
+    elif k == "shuffle":
+        t = T.PatchwiseShuffle()
+    elif k == "hflip":
+        t = T.KDHorizontalFlip()
+    elif k == "identity":
+        t = T.KDIdentityTransform()
+    elif k == "choice":
+        from kappadata.transforms.kd_transform_choice import KDTransformChoice
+        t = KDTransformChoice(transforms=[build_step(s) for s in step["of"]])
+    else:
+        raise KeyError(k)
+    if step.get("p") is not None:
+        t = T.KDRandomApply(transform=t, p=step["p"])
+    return t
+
+
+def build_pipe(pipe, form="compose"):
+    """one transform object (or the raw list, which the wrappers turn into a KDComposeTransform themselves) for a pipeline"""
+    import kappadata.transforms as T
+    ts = [build_step(s) for s in pipe]
+    if len(ts) == 1 and form != "list":
+        return ts[0]
+    return ts if form == "list" else T.KDComposeTransform(ts)
+
+
+class _Skip(Exception):
+    """the hand application is not defined (torchvision refuses the configuration / zero-extent fallback box): out of the claim"""
+
+
+class _Bad(Exception):
+    def __init__(self, key, what, expected=None, actual=None):
+        super().__init__(what)
+        self.key, self.what, self.expected, self.actual = key, what, expected, actual
+
+
+def _ctx_box(vctx, key, names):
+    c = vctx.get(key) if isinstance(vctx, dict) else None
+    if not isinstance(c, dict) or any(c.get(n) is None for n in names):
+        raise _Bad("ctx-missing", f"ctx['{key}'] does not record {','.join(names)} (got {c!r})", names, repr(c)[:200])
+    try:
+        return [int(c[n]) if float(c[n]) == int(c[n]) else c[n] for n in names]
+    except Exception:  # noqa
+        raise _Bad("ctx-missing", f"ctx['{key}'] holds non-numeric parameters {c!r}", names, repr(c)[:200])
+
+
+def hand_step(step, x, vctx):
+    """applies one step BY HAND to x using only the configuration and what the view's ctx records; returns the output (a list for the two-crop)"""
+    from torchvision.transforms import InterpolationMode
+    from torchvision.transforms.functional import crop, hflip, resized_crop, to_tensor
+    k = step["t"]
+    if step.get("p") is not None:
+        # KDRandomApply: either the inner transform ran (then it recorded its parameters) or the input is handed through
+        key = {"crop": "random_crop", "simple": "random_crop", "rrc": "random_resized_crop", "two": "two_random_crop"}[k]
+        if not (isinstance(vctx, dict) and key in vctx):
+            return x
+    if k == "identity":
+        return x
+    if k == "hflip":
+        return hflip(x)
+    if k in ("crop", "simple", "two"):
+        try:
+            src = hand_pad(hand_resize(x, step) if k == "simple" else x, step)
+            H, W = img_size(src)
+        except Exception as e:
+            raise _Skip(f"hand padding refused: {type(e).__name__}")
+        th, tw = step["size"]
+        if H < th or W < tw:
+            raise _Skip("padded image smaller than the crop")
+        if k == "two":
+            c = _ctx_box(vctx, "two_random_crop", ["i0", "j0", "h0", "w0", "i1", "j1", "h1", "w1"])
+            boxes = [c[:4], c[4:]]
+        else:
+            boxes = [_ctx_box(vctx, "random_crop", "ijhw")]
+        outs = []
+        for b in boxes:
+            if not box_ok(b, H, W):
+                raise _Bad("ctx-out-of-bounds", f"recorded crop box {b} leaves the {H}x{W} (padded) input", f"inside {H}x{W}", b)
+            if [b[2], b[3]] != [th, tw]:
+                raise _Bad("output-size", f"recorded crop box {b} has not the requested size {[th, tw]}", [th, tw], b[2:])
+            outs.append(crop(src, *b))
+        return outs if k == "two" else outs[0]
+    if k == "rrc":
+        H, W = img_size(x)
+        b = _ctx_box(vctx, "random_resized_crop", "ijhw")
+        og = _ctx_box(vctx, "random_resized_crop", ["og_h", "og_w"])
+        if og != [H, W]:
+            raise _Bad("ctx-og-size", f"recorded original size {og} is not the input size {[H, W]}", [H, W], og)
+        if b[2] <= 0 or b[3] <= 0:
+            raise _Skip("zero-extent fallback box")
+        if not box_ok(b, H, W):
+            raise _Bad("ctx-out-of-bounds", f"recorded resized-crop box {b} leaves the {H}x{W} input", f"inside {H}x{W}", b)
+        try:
+            return resized_crop(x, b[0], b[1], b[2], b[3], list(step["size"]), InterpolationMode(step.get("interp", "bilinear")))
+        except Exception as e:
+            raise _Skip(f"hand resized_crop refused: {type(e).__name__}")
+    if k == "patchify":
+        xt = x if torch.is_tensor(x) else to_tensor(x)
+        ph, pw = step["ph"], step["pw"]
+        c, H, W = xt.shape
+        if H % ph or W % pw:
+            raise _Skip("patch size does not divide the image")
+        lh, lw = H // ph, W // pw
+        rec = [vctx.get("patchify_lh"), vctx.get("patchify_lw")] if isinstance(vctx, dict) else None
+        if rec != [lh, lw]:
+            raise _Bad("ctx-patch-grid", f"ctx records patchify_lh/lw = {rec} for a {H}x{W} image with {ph}x{pw} patches", [lh, lw], rec)
+        return torch.stack([xt[:, a * ph:(a + 1) * ph, b * pw:(b + 1) * pw] for a in range(lh) for b in range(lw)], dim=1)
+    if k == "shuffle":
+        perm = vctx.get("permutation") if isinstance(vctx, dict) else None
+        n = x.shape[1]
+        try:
+            perm = [int(v) for v in perm]
+        except Exception:  # noqa
+            raise _Bad("ctx-missing", f"ctx['permutation'] = {perm!r} is not a permutation", f"permutation of {n}", repr(perm)[:200])
+        if sorted(perm) != list(range(n)):
+            raise _Bad("ctx-permutation", f"ctx['permutation'] = {perm} is not a permutation of the {n} patches", f"permutation of {n}", perm)
+        return x[:, torch.as_tensor(perm, dtype=torch.long)]
+    if k == "choice":
+        idx = vctx.get("transform_choice") if isinstance(vctx, dict) else None
+        if not isinstance(idx, int) or not 0 <= idx < len(step["of"]):
+            raise _Bad("ctx-missing", f"ctx['transform_choice'] = {idx!r} does not name one of the {len(step['of'])} transforms", "index", repr(idx))
+        return hand_step(step["of"][idx], x, vctx)
+    raise KeyError(k)
+
+
+def hand_pipe(pipe, x, vctx):
+    """returns (expected output, image right before patchify or None)"""
+    pre = None
+    for s in pipe:
+        if s["t"] == "patchify":
+            from torchvision.transforms.functional import to_tensor
+            pre = x if torch.is_tensor(x) else to_tensor(x)
+        if isinstance(x, list):
+            raise _Skip("steps after a two-crop are not generated")
+        x = hand_step(s, x, vctx)
+    return x, pre
+
+
+def pipe_out_size(pipe):
+    """requested spatial size of the pipeline's output when its last size-defining step states one (None: input size / patches)"""
+    size = None
+    for s in pipe:
+        if s["t"] in ("crop", "simple", "two", "rrc") and s.get("p") is None:
+            size = list(s["size"])
+        elif s["t"] in ("choice",) or s.get("p") is not None:
+            size = None
+        elif s["t"] in ("patchify", "shuffle"):
+            return None
+    return size
+
+
+def _fetch(host, access, idx):
+    """(views-or-output, ctx) of one sample through the requested public access path"""
+    from kappadata.wrappers import ModeWrapper
+    if access == "getitem":
+        ctx = {}
+        return host.getitem_x(idx, ctx), ctx
+    if access == "modeidx":
+        (i, out), ctx = ModeWrapper(dataset=host, mode="index x", return_ctx=True)[idx]
+        return out, ctx
+    out, ctx = ModeWrapper(dataset=host, mode="x", return_ctx=True)[idx]
+    return out, ctx
+
+
+def _comp_base(case, images):
+    """the dataset below the host and, per index of it, which image it shows and what the deterministic inner transform is"""
+    from tests_util.datasets.x_dataset import XDataset
+    import kappadata.transforms as T
+    from kappadata.wrappers import SubsetWrapper, XTransformWrapper
+    ds = XDataset([comp_copy(im) for im in images])
+    base = case.get("base", "plain")
+    src = list(range(len(images)))
+    inner = []
+    if base == "subset":
+        src = list(case["indices"])
+        ds = SubsetWrapper(ds, indices=list(src))
+    elif base == "xflip":
+        ds = XTransformWrapper(ds, transform=T.KDHorizontalFlip())
+        inner = [{"t": "hflip"}]
+    elif base == "xidentity":
+        ds = XTransformWrapper(ds, transform=T.KDIdentityTransform())
+    return ds, src, inner
+
+
+def _comp_host(case, base, configs, seed):
+    from kappadata.wrappers import KDMultiViewWrapper, XTransformWrapper
+    from kappadata.wrappers.sample_wrappers.kd_multi_view_wrapper import KDMultiViewConfig
+    if case["host"] == "xwrap":
+        return XTransformWrapper(base, transform=configs[0], seed=seed)
+    return KDMultiViewWrapper(base, configs=configs, seed=seed)
+
+
+def _comp_configs(case, spec):
+    """configuration objects for a host from its spec [[n_views, pipe], ...] in the requested written form"""
+    from kappadata.wrappers.sample_wrappers.kd_multi_view_wrapper import KDMultiViewConfig
+    form = case.get("form", "tuple")
+    if case["host"] == "xwrap":
+        return [build_pipe(spec[0][1], "list" if form == "list" else "compose")]
+    out = []
+    first = None
+    for n, pipe in spec:
+        if pipe is None:
+            out.append(n if form != "dict" else dict(n_views=n))
+            continue
+        t = build_pipe(pipe, "list" if form == "list" else "compose")
+        if case.get("share_transform") and first is not None and first[0] == pipe:
+            t = first[1]          # the same transform object serves two configurations
+        if first is None:
+            first = (pipe, t)
+        if form == "dict":
+            out.append(dict(n_views=n, transform=t))
+        elif form == "cfg" and not isinstance(t, list):
+            out.append(KDMultiViewConfig(n_views=n, transform=t))
+        else:
+            out.append((n, t))
+    return out
+
+
+def run_comp(case):
+    """global numpy state is pinned for the run (transforms without a wrapper seed take their generator from it) and restored afterwards"""
+    state = np.random.get_state()
+    np.random.seed(random.Random(json.dumps(case, sort_keys=True, default=str)).randrange(2 ** 31))
+    try:
+        return _run_comp(case)
+    finally:
+        np.random.set_state(state)
+
+
+def _run_comp(case):
+    import copy
+    import pickle
+    real = {"log": [], "records": []}
+    kind = case.get("kind", "tensor")
+    images = [comp_image(kind, h, w) for h, w in case["images"]]
+    real["_images"] = images
+    host_kind = case["host"]
+    hist = case.get("hist", "fresh")
+    try:
+        if host_kind == "compose":
+            t = build_pipe(case["configs"][0][1], "compose")
+            import kappadata.transforms as T
+            if not isinstance(t, T.KDComposeTransform) and case.get("form") == "list":
+                t = T.KDComposeTransform([t])
+            t.set_rng(np.random.default_rng(case["seed"]))
+            n = case["configs"][0][0]
+            x = images[0]
+            for k in range(n):
+                vctx = {}
+                y = t(comp_copy(x), vctx)
+                real["records"].append({"who": 0, "src": 0, "views": [y], "vctxs": [vctx]})
+                if k == 0 and hist == "pickle":
+                    t = pickle.loads(pickle.dumps(t))
+                elif k == 0 and hist == "deepcopy":
+                    t = copy.deepcopy(t)
+                elif hist == "noctx":
+                    t(comp_copy(x))           # a call without context in between
+            real["out"] = "ok"
+            return real
+        base, src, inner = _comp_base(case, images)
+        real["_inner"] = inner
+        configs = _comp_configs(case, case["configs"])
+        hosts = [_comp_host(case, base, configs, case.get("seed"))]
+        specs = [case["configs"]]
+        peer = case.get("peer")
+        if peer == "same":
+            hosts.append(_comp_host(case, base, configs, None if case.get("seed") is None else case["seed"] + 17))
+            specs.append(case["configs"])
+        elif peer == "other":
+            hosts.append(_comp_host(case, base, _comp_configs(case, case["peer_configs"]), case.get("seed")))
+            specs.append(case["peer_configs"])
+        real["_specs"] = specs
+        for k, idx in enumerate(case["order"]):
+            for who, host in enumerate(hosts):
+                out, ctx = _fetch(host, case.get("access", "mode"), idx)
+                if host_kind == "xwrap":
+                    views, vctxs = [out], [ctx]
+                else:
+                    views = list(out) if isinstance(out, (list, tuple)) else [out]
+                    vctxs = [ctx.get(f"view{v}") if isinstance(ctx, dict) else None for v in range(len(views))]
+                real["records"].append({"who": who, "idx": idx, "src": src[idx], "views": views, "vctxs": vctxs})
+            if k == 0 and hist == "pickle":
+                hosts = [pickle.loads(pickle.dumps(h)) for h in hosts]
+            elif k == 0 and hist == "deepcopy":
+                hosts = [copy.deepcopy(h) for h in hosts]
+        real["out"] = "ok"
+    except Exception as e:
+        real["out"] = exc_kind(e)
+        real["msg"] = f"{type(e).__name__}: {e}"[:200]
+    return real
+
+
+def req_comp(case, real):
+    return None
+
+
+def views_comp(case, real, model):
+    return None, None
+
+
+def comp_view_plan(spec):
+    """view number -> pipeline (None = identity) for a host spec"""
+    plan = []
+    for n, pipe in spec:
+        plan += [pipe] * n
+    return plan
+
+
+def oracle_comp(case, real):
+    hostname = COMP_HOSTS[case["host"]]
+    desc = f"{hostname} configs={[[n, None if p is None else [s['t'] + ('?' if s.get('p') is not None else '') for s in p]] for n, p in case['configs']]}"
+    tag = (f"{desc} images={case['images']} ({case.get('kind', 'tensor')}) below={case.get('base', 'plain')} access={case.get('access', 'mode')} "
+           f"history={case.get('hist', 'fresh')} peer={case.get('peer')} seed={case.get('seed')}")
+    if real["out"] != "ok":
+        # every generated pipeline fits its input; is that so by hand as well?  (otherwise the rejection is the specified outcome)
+        try:
+            for (h, w) in case["images"]:
+                for n, pipe in case["configs"] + (case.get("peer_configs") or []):
+                    if pipe is not None:
+                        _hand_fits(pipe, comp_image(case.get("kind", "tensor"), h, w))
+        except _Skip:
+            return None
+        except Exception:  # noqa
+            return None
+        return Failure(f"{hostname}:exception", f"raises {real.get('msg', real['out'])} although every crop fits its (padded) input: {tag}", case, "views + ctx",
+                       real.get("msg", real["out"]))
+    inner = real.get("_inner") or []
+    for rec in real["records"]:
+        x = real["_images"][rec["src"]]
+        for s in inner:
+            x = hand_step(s, x, {})
+        if case["host"] == "compose":
+            plan = [case["configs"][0][1]] * len(rec["views"])
+        else:
+            plan = comp_view_plan(real["_specs"][rec["who"]])
+        where = f"sample {rec.get('idx', 0)}" + (f" of instance {rec['who']}" if len(real.get('_specs', [])) > 1 else "")
+        if len(rec["views"]) != len(plan):
+            return Failure(f"{hostname}:view-count", f"{len(rec['views'])} views instead of {len(plan)} for {where}: {tag}", case, len(plan), len(rec["views"]))
+        for v, (view, vctx, pipe) in enumerate(zip(rec["views"], rec["vctxs"], plan)):
+            name = f"view {v}" if case["host"] == "multiview" else ("output" if case["host"] == "xwrap" else f"call {v}")
+            if pipe is None:
+                pipe = [{"t": "identity"}]
+            if case["host"] == "multiview" and not isinstance(vctx, dict):
+                return Failure(f"{hostname}:ctx-missing", f"ctx has no entry 'view{v}' for {where}: {tag}", case, f"ctx['view{v}']", repr(vctx)[:100])
+            try:
+                want, pre = hand_pipe(pipe, x, vctx)
+            except _Skip:
+                continue
+            except _Bad as b:
+                return Failure(f"{hostname}:{b.key}", f"{name} of {where}: {b.what}: {tag}", case, b.expected, b.actual)
+            wants = want if isinstance(want, list) else [want]
+            gots = list(view) if isinstance(want, list) and isinstance(view, (list, tuple)) else [view]
+            if len(wants) != len(gots):
+                return Failure(f"{hostname}:output-size", f"{name} of {where} is not a pair of crops: {tag}", case, len(wants), str(type(view)))
+            size = pipe_out_size(pipe)
+            for g in gots:
+                try:
+                    gsize = list(img_size(g))
+                except Exception:  # noqa
+                    gsize = f"not an image ({type(g).__name__})"
+                if size is not None and gsize != size:
+                    return Failure(f"{hostname}:output-size", f"{name} of {where} has size {gsize} instead of {size}: {tag}", case, size, gsize)
+            for k, (w_, g) in enumerate(zip(wants, gots)):
+                if not same_any(w_, g):
+                    return Failure(f"{hostname}:view-ctx-does-not-reproduce",
+                                   f"the parameters recorded for {name} of {where} ({_short_ctx(vctx)}), applied to the input by hand, do not reproduce that "
+                                   f"{'view' if case['host'] == 'multiview' else 'output'}{f' (crop {k})' if len(wants) > 1 else ''}: {tag}", case, "equal", "differs")
+            if pre is not None and any(s["t"] == "shuffle" for s in pipe) and torch.is_tensor(view):
+                # inverse direction with the package's own UnpatchifyImage and this view's ctx
+                try:
+                    import kappadata.transforms as T
+                    perm = torch.as_tensor([int(p) for p in vctx["permutation"]], dtype=torch.long)
+                    un = torch.empty_like(view)
+                    un[:, perm] = view
+                    back = T.UnpatchifyImage()(un, vctx)
+                    ok = same_any(back, pre)
+                except Exception as e:
+                    ok, back = False, f"{type(e).__name__}: {e}"[:120]
+                if not ok:
+                    return Failure(f"{hostname}:round-trip", f"unpatchify(unshuffle({name}, recorded permutation)) with the ctx of {name} of {where} is not the "
+                                   f"patchified image: {tag}", case, "image", "differs")
+    return None
+
+
+def _short_ctx(vctx):
+    try:
+        return json.dumps({k: (v if isinstance(v, (int, float, str, dict)) else [int(e) for e in v][:12]) for k, v in vctx.items()}, default=str)[:200]
+    except Exception:  # noqa
+        return repr(vctx)[:200]
+
+
+def _hand_fits(pipe, x):
+    """raises _Skip when some crop of the pipeline does not fit by hand (sizes only; parameters are not needed for that)"""
+    from torchvision.transforms.functional import resize
+    for s in pipe:
+        k = s["t"]
+        if k in ("crop", "simple", "two"):
+            try:
+                src = hand_pad(hand_resize(x, s) if k == "simple" else x, s)
+            except Exception:  # noqa
+                raise _Skip("hand padding refused")
+            H, W = img_size(src)
+            th, tw = s["size"]
+            if H < th or W < tw:
+                raise _Skip("does not fit")
+            if s.get("p") is not None:
+                return
+            x = coord_tensor(th, tw)
+        elif k == "rrc":
+            if s.get("p") is not None:
+                return
+            x = coord_tensor(*s["size"])
+        elif k == "choice":
+            for alt in s["of"]:
+                _hand_fits([alt], x)
+            return
+        elif k == "patchify":
+            H, W = img_size(x)
+            if H % s["ph"] or W % s["pw"]:
+                raise _Skip("not divisible")
+            return
+
+
+def sig_comp(case, real):
+    kinds = tuple(None if p is None else tuple(s["t"] + ("?" if s.get("p") is not None else "") for s in p) for n, p in case["configs"])
+    return ("comp", case["host"], case.get("base", "plain"), case.get("hist", "fresh"), case.get("peer"), case.get("access", "mode"), case.get("kind"),
+            kinds, tuple(min(n, 3) for n, p in case["configs"]), real.get("out"))
+
+
+def _gen_crop_step(rng, h, w, small=True):
+    """a KDRandomCrop step that fits an h x w input; returns (step, out_h, out_w)"""
+    pr = rng.random()
+    padding = None if pr < 0.5 else (rng.randint(0, 3) if pr < 0.75 else [rng.randint(0, 3), rng.randint(0, 3)])
+    pin = rng.random() < 0.25
+    th = rng.randint(1, max(1, h - 2)) if small else rng.randint(1, h)
+    tw = rng.randint(1, max(1, w - 2)) if small else rng.randint(1, w)
+    if pin and rng.random() < 0.5:
+        th = h + rng.randint(0, 3)
+    mode = rng.choice(["constant", "constant", "edge"])
+    if not pin and min(h, w) > 4 and rng.random() < 0.2:
+        mode = "reflect"
+    return {"t": "crop", "size": [th, tw], "padding": padding, "pin": pin, "mode": mode, "fill": rng.choice([0, 0, 7])}, th, tw
+
+
+def _gen_rrc_step(rng, size=None):
+    s = size or [rng.randint(2, 12), rng.randint(2, 12)]
+    return {"t": "rrc", "size": list(s), "scale": rng.choice([[0.08, 1.0], [0.2, 1.0], [0.5, 0.9]]), "ratio": rng.choice([[0.75, 4.0 / 3.0], [1.0, 1.0], [0.5, 2.0]]),
+            "interp": rng.choice(["bilinear", "bicubic", "nearest"])}
+
+
+def gen_pipe(rng, hmin, wmin, host):
+    """a pipeline whose crops fit every image of at least hmin x wmin"""
+    r = rng.random()
+    if r < 0.22:
+        return [_gen_crop_step(rng, hmin, wmin)[0]]
+    if r < 0.40:
+        return [_gen_rrc_step(rng)]
+    if r < 0.48 and host != "compose":
+        s, th, tw = _gen_crop_step(rng, hmin, wmin)
+        dy = [None, 0.125, 0.25, 0.5, 1.0]
+        a, b = rng.choice(dy), rng.choice(dy)
+        if a is not None and b is not None and a > b:
+            a, b = b, a
+        s.update(t="two", omin=a, omax=b, tries=rng.choice([1, 3, 20]))
+        return [s]
+    if r < 0.54:
+        s = rng.choice([3, 4, 6, 8])
+        return [{"t": "simple", "rsize": s, "size": [s, s], "padding": rng.choice([2, 1, 0, None]), "mode": rng.choice(["constant", "edge"]),
+                 "interp": rng.choice(["bicubic", "bilinear", "nearest"]), "pin": False}]
+    if r < 0.72:
+        # (crop | resized crop) to a multiple of the patch size -> patchify -> shuffle
+        ph, pw = rng.choice([1, 2, 3, 4]), rng.choice([1, 2, 3, 4])
+        lh, lw = rng.randint(1, max(1, min(4, hmin // ph))), rng.randint(1, max(1, min(4, wmin // pw)))
+        if rng.random() < 0.6 and ph * lh <= hmin and pw * lw <= wmin:
+            first = {"t": "crop", "size": [ph * lh, pw * lw], "padding": rng.choice([None, None, 1]), "pin": False, "mode": "constant", "fill": 0}
+        else:
+            first = _gen_rrc_step(rng, [ph * lh, pw * lw])
+        return [first, {"t": "patchify", "ph": ph, "pw": pw}, {"t": "shuffle"}]
+    if r < 0.80:
+        first = _gen_rrc_step(rng, [rng.randint(4, 12), rng.randint(4, 12)])
+        return [first, _gen_crop_step(rng, first["size"][0], first["size"][1])[0]]
+    if r < 0.86:
+        steps = [_gen_crop_step(rng, hmin, wmin)[0], {"t": "hflip"}]
+        if rng.random() < 0.5:
+            steps.reverse()
+        return steps
+    if r < 0.93:
+        s = _gen_crop_step(rng, hmin, wmin)[0] if rng.random() < 0.5 else _gen_rrc_step(rng)
+        s["p"] = rng.choice([0.5, 0.5, 1.0, 0.0])
+        return [s]
+    return [{"t": "choice", "of": [_gen_crop_step(rng, hmin, wmin)[0], _gen_rrc_step(rng)]}]
+
+
+def gen_comp(rng, big=False):
+    host = rng.choice(["multiview"] * 6 + ["xwrap"] * 2 + ["compose"] * 2)
+    n_img = 1 if host == "compose" else rng.randint(1, 3)
+    images = [[rng.randint(4, 40), rng.randint(4, 40)] for _ in range(n_img)]
+    if rng.random() < 0.25:
+        images[0] = rng.choice([[32, 32], [17, 40], [40, 17], [4, 4], [5, 40]])
+    hmin, wmin = min(i[0] for i in images), min(i[1] for i in images)
+    case = {"fam": "comp", "host": host, "images": images, "kind": rng.choice(["tensor", "tensor", "pil", "pil", "f32", "f64", "gray"]),
+            "seed": rng.choice([None, rng.randint(0, 10 ** 6), rng.randint(0, 10 ** 6)]) if host != "compose" else rng.randint(0, 10 ** 6),
+            "form": rng.choice(["tuple", "tuple", "dict", "cfg", "list"])}
+    if host == "multiview":
+        n_cfg = rng.choice([1, 1, 2, 2, 3])
+        configs = []
+        for _ in range(n_cfg):
+            n = rng.choice([1, 2, 2, 3, 4])
+            pipe = None if rng.random() < 0.08 else gen_pipe(rng, hmin, wmin, host)
+            configs.append([n, pipe])
+        if n_cfg > 1 and rng.random() < 0.2:
+            configs[-1][1] = configs[0][1]
+            case["share_transform"] = True
+        case["configs"] = configs
+    elif host == "xwrap":
+        case["configs"] = [[1, gen_pipe(rng, hmin, wmin, host)]]
+    else:
+        case["configs"] = [[rng.choice([2, 3, 4]), gen_pipe(rng, hmin, wmin, host)]]
+    case["hist"] = rng.choice(["fresh", "fresh", "pickle", "deepcopy"] + (["noctx"] if host == "compose" else []))
+    if host != "compose":
+        case["access"] = rng.choice(["mode", "mode", "getitem", "modeidx"])
+        case["base"] = rng.choice(["plain", "plain", "subset", "xflip", "xidentity"])
+        n = n_img
+        if case["base"] == "subset":
+            idxs = list(range(n_img)) + [rng.randrange(n_img) for _ in range(rng.randint(0, 2))]
+            rng.shuffle(idxs)
+            case["indices"] = idxs
+            n = len(idxs)
+        order = list(range(n))
+        rng.shuffle(order)
+        if rng.random() < 0.4:
+            order.append(order[0])       # the same sample once more
+        case["order"] = order[:4]
+        pr = rng.random()
+        if pr < 0.2:
+            case["peer"] = "same"
+        elif pr < 0.4:
+            case["peer"] = "other"
+            if host == "multiview":
+                case["peer_configs"] = [[rng.choice([1, 2, 3]), gen_pipe(rng, hmin, wmin, host)] for _ in range(rng.choice([1, 2]))]
+            else:
+                case["peer_configs"] = [[1, gen_pipe(rng, hmin, wmin, host)]]
+    return case
+
+
+def comp_sweep_cases():
+    """structured part: every recording pipeline x n_views 1..3 x host, two images, plain history"""
+    crop = {"t": "crop", "size": [16, 12], "padding": 3, "pin": True, "mode": "constant", "fill": 0}
+    rrc = {"t": "rrc", "size": [8, 10], "scale": [0.2, 1.0], "ratio": [0.75, 4.0 / 3.0], "interp": "bilinear"}
+    two = {"t": "two", "size": [9, 9], "padding": None, "pin": False, "mode": "constant", "fill": 0, "omin": None, "omax": None, "tries": 3}
+    patch = [{"t": "crop", "size": [12, 8], "padding": None, "pin": False, "mode": "constant", "fill": 0}, {"t": "patchify", "ph": 4, "pw": 2}, {"t": "shuffle"}]
+    simple = {"t": "simple", "rsize": 8, "size": [8, 8], "padding": 2, "mode": "constant", "interp": "bilinear", "pin": False}
+    out = []
+    pipes = [[crop], [rrc], [two], patch, [simple], [rrc, {"t": "crop", "size": [5, 6], "padding": None, "pin": False, "mode": "constant", "fill": 0}]]
+    for k, pipe in enumerate(pipes):
+        for n in (1, 2, 3):
+            for kind in ("tensor", "pil"):
+                out.append({"fam": "comp", "host": "multiview", "images": [[32, 32], [17, 40]], "kind": kind, "seed": k + n, "form": "tuple",
+                            "configs": [[n, pipe], [1, [{"t": "crop", "size": [8, 8], "padding": None, "pin": False, "mode": "constant", "fill": 0}]]],
+                            "hist": "fresh", "access": "mode" if n != 2 else "getitem", "base": "plain", "order": [0, 1]})
+            if pipe[0]["t"] != "two":
+                out.append({"fam": "comp", "host": "compose", "images": [[24, 20]], "kind": "tensor", "seed": k, "form": "tuple", "configs": [[n + 1, pipe]],
+                            "hist": "fresh"})
+        out.append({"fam": "comp", "host": "xwrap", "images": [[32, 32], [17, 40]], "kind": "tensor", "seed": k, "form": "tuple", "configs": [[1, pipe]],
+                    "hist": "fresh", "access": "mode", "base": "plain", "order": [0, 1, 0]})
+    return out
+
+
+# ----------------------------------------------------------------------------------------------
 # the check
 # ----------------------------------------------------------------------------------------------
 FAMS = {
@@ -1583,8 +2211,9 @@ FAMS = {
     "patch": (gen_patch, run_patch, req_patch, views_patch, oracle_patch, sig_patch),
     "norm": (gen_norm, run_norm, req_norm, views_norm, oracle_norm, sig_norm),
     "misc": (gen_misc, run_misc, req_misc, views_misc, oracle_misc, sig_misc),
+    "comp": (gen_comp, run_comp, req_comp, views_comp, oracle_comp, sig_comp),
 }
-QUICK = {"crop": 420, "rrc": 260, "erase": 260, "spec": 260, "semseg": 420, "patch": 260, "norm": 120, "misc": 250}
+QUICK = {"crop": 420, "rrc": 260, "erase": 260, "spec": 260, "semseg": 420, "patch": 260, "norm": 120, "misc": 250, "comp": 320}
 
 
 def sweep_cases():
@@ -1612,7 +2241,7 @@ def sweep_cases():
                 for lw in (1, 3):
                     for sub in ("image", "plain", "shuffle", "patchwise"):
                         out.append({"fam": "patch", "sub": sub, "c": 2, "H": ph * lh, "W": pw * lw, "ph": ph, "pw": pw, "seed": ph + 3 * lh})
-    return out
+    return out + comp_sweep_cases()
 
 
 def eval_cases(driver, cases):
@@ -1684,6 +2313,9 @@ class C14(PropertyCheck):
         "kappadata/transforms/norm/kd_image_norm.py", "kappadata/transforms/norm/kd_image_range_norm.py", "kappadata/transforms/norm/kd_norm_base.py",
         "kappadata/utils/bounding_box_utils.py", "kappadata/utils/transform_utils.py", "kappadata/utils/random.py",
         "kappadata/transforms/base/kd_random_apply_base.py",
+        "kappadata/wrappers/sample_wrappers/kd_multi_view_wrapper.py", "kappadata/wrappers/sample_wrappers/x_transform_wrapper.py",
+        "kappadata/wrappers/sample_wrappers/base/transform_wrapper_base.py", "kappadata/transforms/base/kd_compose_transform.py",
+        "kappadata/transforms/kd_random_apply.py", "kappadata/transforms/kd_transform_choice.py",
     ]
     assumptions = [
         "numpy Generator contract: integers(lo, hi) returns lo <= v < hi and raises ValueError when hi <= lo; random() returns 0 <= v < 1; "
@@ -1703,7 +2335,8 @@ class C14(PropertyCheck):
         "KDRandomErasing.forward, KDSpecAugment._mask_along_axis, KDSemsegRandomCrop / Pad / RandomResize(Old) / OverlappedMultiCrop, KDRandomApplyBase, "
         "intersection_area_*, PatchwiseShuffle, KDImageNorm / KDImageRangeNorm / get_denorm_transform",
         "not modelled: interpolation of resize / resized_crop, replacement values of erasing, PIL<->tensor conversion, Resize inside KDSimpleRandomCrop "
-        "(its output size is measured and handed to the crop model)",
+        "(its output size is measured and handed to the crop model); KDMultiViewWrapper / XTransformWrapper / KDComposeTransform / KDRandomApply / "
+        "KDTransformChoice plumbing (which ctx entry belongs to which view): no Lean model, judged by the independent oracle only (family `comp`)",
     ]
     level_text = ("Lean theorems (KDVerif.Props.C14) for all image sizes, targets, paddings and all tapes satisfying the integers(lo,hi) contract: crop box in "
                   "bounds with exactly the requested size, rejection iff more than one pixel too small (1-pixel edge = generator ValueError), pad_if_needed "
@@ -1734,8 +2367,10 @@ class C14(PropertyCheck):
                 corpus += d if isinstance(d, list) else [d]
         sweep = sweep_cases()
         if self.tier == "quick":
+            fixed = [c for c in sweep if c["fam"] == "comp"]        # the structured compositions always run
+            sweep = [c for c in sweep if c["fam"] != "comp"]
             self.rng.shuffle(sweep)
-            sweep = sweep[:400]
+            sweep = sweep[:400] + fixed
         mult = 1 if self.tier == "quick" else 8
         rnd = []
         for fam, n in QUICK.items():
@@ -1750,7 +2385,9 @@ class C14(PropertyCheck):
                     f"segmentation pad/crop/pipeline, small patch grids{'; sampled' if self.tier == 'quick' else '; complete'}) + seeded random cases per family "
                     "(crops incl. padding modes / pad_if_needed / PIL+tensor, resized crop incl. never-accepting scales and extreme ratios, erasing, spec "
                     "augment, segmentation transforms + SemsegTransformWrapper pipeline, patchify/shuffle/unpatchify + random einops patterns, norms, box "
-                    "intersection, grid ops); image sizes 1..40, targets 1..33; distinct = per-family signature (class, input kind, size relations, "
+                    "intersection, grid ops, compositions: recording transforms through KDMultiViewWrapper / XTransformWrapper / KDComposeTransform / KDRandomApply / "
+                    "KDTransformChoice over plain, subset and transform-wrapped datasets, late judgement of every view's own ctx, pickled / deep-copied and "
+                    "peer instances, uint8 / float32 / float64 / 1-channel / PIL inputs -- oracle only, no model); image sizes 1..40, targets 1..33; distinct = per-family signature (class, input kind, size relations, "
                     "configuration class, branch taken, outcome)")
         res.exhaustive = False
         t_fam = {}
